@@ -410,6 +410,27 @@ def oracle_forms(ctx: Ctx, scale=1):
                 continue
             if type(got) is not type(want) or int(got.serial) != int(want.serial):
                 ctx.fail("integer-type-of-argument", {**case, "call": name}, f"{name} with {npint.__name__} arguments gives {got!r}, with Python ints {want!r}")
+    # --- a representation recorded from a period still converts back to it after arithmetic was done with (another name of)
+    # that period: `q = p; q += k` must not move `p`
+    for _ in range(ctx.n(200, 3000) * scale):
+        f = rng.choice(ALLF)
+        s = SEQ_BASE[f] + rng.randint(-300, 300)
+        p = CLS[f](s)
+        case = {"freq": f, "serial": s}
+        ctx.evaluations += 1
+        try:
+            recorded = (p.to_sdmx_string(), repr(p), None if f == "I" else p.to_iso_string(), None if f == "I" else p.to_ymd())
+            q = p
+            q += rng.randint(1, 9)
+            q -= rng.randint(1, 4)
+            back = ir.Period.from_sdmx_string(recorded[0])
+            ok = p.serial == s and back == p and repr(p) == recorded[1]
+            if f != "I":
+                ok = ok and p.to_iso_string() == recorded[2] and p.to_ymd() == recorded[3] and ir.Period.from_ymd(FREQ[f], *recorded[3]) == p
+            if not ok:
+                ctx.fail("period-mutated-by-augmented-assignment", case, f"recorded {recorded[:2]}, after `q = p; q += k; q -= j` p is {p!r} (serial {p.serial}, was {s})")
+        except Exception as e:
+            ctx.fail("period-mutated-by-augmented-assignment", case, repr(e))
     # --- sequence forms
     for f, shape, seq in gen_sequences(ctx, rng):
         ps = [CLS[f](x) for x in seq]
